@@ -597,7 +597,9 @@ def r5_normalisation(ctx):
 
 def r6_import_by_path(ctx):
     rep = ctx.rep
-    f = ctx.func(CIMP)
+    # the helper that imports an existing path; when it was written out in its only caller, that caller
+    written_out = not ctx.prog.has_func(CIMP)
+    f = ctx.func(IMPP) if written_out else ctx.func(CIMP)
     g = ctx.cfg(f)
     rd = ctx.rd(f)
     path = f.node.args.args[0].arg
@@ -622,6 +624,9 @@ def r6_import_by_path(ctx):
                'imports modpath_to_modname(<the given path>) while the directory is on sys.path' if inside and okn else
                ('the import runs outside the sys.path context' if not inside else 'the imported name is not the one derived from the given path'), anchor=CIMP)
     rets = [n for n in g.nodes if n.kind == 'stmt' and isinstance(n.ast, ast.Return) and not n.dup]
+    if written_out:
+        wdom = ctx.dom(g, g.entry)
+        rets = [n for n in rets if wdom.dominates(w, n)]
     for rn in rets:
         org = _origins(rd, rn, rn.ast.value) if rn.ast.value is not None else []
         ok = bool(org) and all(_is_call_to(o, 'import_module_from_name') for o in org)
@@ -631,7 +636,7 @@ def r6_import_by_path(ctx):
     g2 = ctx.cfg(f2)
     rd2 = ctx.rd(f2)
     calls = [(n, cc) for n in g2.nodes if not n.dup for cc in node_calls(n) if _callee(cc) == '_custom_import_modpath']
-    rep.floor('C17.R6', 'delegations in import_module_from_path', len(calls), 1)
+    rep.floor('C17.R6', 'delegations in import_module_from_path', len(calls), 0 if written_out else 1)
     for (n, cc) in calls:
         org = _origins(rd2, n, cc.args[0]) if cc.args else []
         p0 = f2.node.args.args[0].arg
